@@ -1,7 +1,7 @@
 (** C03 — Wire codec round-trip: decode(encode(x)) == x. *)
 From FV Require Import Base.Bytes Codec.Value Codec.Enc Codec.Dec Proofs.RoundTrip.
 From FV Require Import Tie.Tie_FormatCodes Gen.FormatCodes Gen.CodecConsts Codec.Spec.
-From FV Require Import Codec.Composite Codec.CompositeSpec Gen.Composites Tie.Tie_Composites Proofs.CompositeProofs Proofs.CompositeTable.
+From FV Require Import Codec.Composite Codec.CompositeSpec Gen.Composites Tie.Tie_Composites Proofs.CompositeProofs Proofs.CompositeTable Codec.Message Proofs.MessageProofs.
 Open Scope N_scope.
 
 (** Tie to the source of this run: the regenerated format-code table is the
@@ -122,3 +122,26 @@ Example C03_composite_example :
     [VString [99; 49]; VNull; VUint 4294967295; VUshort 100; VUint 30000; VArray []; VNull;
      VArray [VSymbol [120]; VSymbol [121; 122]]; VNull] = true.
 Proof. exact open_example. Qed.
+
+(** ** messages: the sections of a message survive the message codec
+
+    [enc_message] / [dec_message] (Codec/Message.v) model the message serializer and the visitor of
+    the message deserializer at the level of sections (header, delivery- and message-annotations,
+    properties, application-properties, body, footer), with data / amqp-sequence batches read as
+    TransparentVecAccess does.  For every message whose optional sections are any well-formed
+    sections of the right kind and whose body is one amqp-value section, or one or more data
+    sections, or one or more amqp-sequence sections: decoding the serializer's bytes gives back
+    exactly these sections.  (The empty body is written as an amqp-value null and reads back as
+    that: known finding c03-typed-roundtrip-message-body-empty, witnessed in the example.) *)
+Theorem C03_message_roundtrip :
+  forall m fuel b,
+    msg_ok m = true -> Forall (fun v => (depth v <= fuel)%nat) (sections_of m) ->
+    enc_message m = Some b -> dec_message fuel b = Ok m.
+Proof. exact message_roundtrip. Qed.
+Print Assumptions C03_message_roundtrip.
+
+Example C03_message_example :
+  msg_ok ex_msg = true /\
+  (exists b, enc_message ex_msg = Some b /\ dec_message 4 b = Ok ex_msg) /\
+  (exists b, enc_message empty_msg = Some b /\ dec_message 4 b = Ok (set_body [VDescribed (DCode 119) VNull] empty_msg)).
+Proof. exact message_example. Qed.
